@@ -108,7 +108,7 @@ impl Check for MerkleIndexed {
         if tier == Tier::Quick {
             4000
         } else {
-            100000
+            50000
         }
     }
     fn components(&self) -> serde_json::Value { serde_json::json!({"real": ["MerkleDistributor<Keccak256 | Sha256>::verify_with_index_and_set_claimed", "Verifier::verify_with_index", "Verifier::verify (sorted-pair)", "crypto::{keccak, sha256}"], "stub": ["reference positional tree in the harness"]}) }
